@@ -45,6 +45,8 @@ for sid in sorted(os.listdir(os.path.join(V, "seeded"))):
     meta["detected_by"] = {"own_property_check": [f"{a} @ {b}" for a, b in own_new],
                            "other_property_checks": {p: sorted({a for a, _ in v}) for p, v in others.items()}}
     meta["detected"] = bool(own_new)
+    meta["verdict"] = ("VIOLATION" if any(not a.startswith("UNDECIDED:") for a, _ in own_new) else
+                       "UNDECIDED (exit 2: the check refuses to pass but cannot name a violated clause)" if own_new else "missed")
     json.dump(meta, open(os.path.join(d, "meta.json"), "w"), indent=1, ensure_ascii=False)
     rows.append((sid, own, ", ".join(sorted({a for a, _ in own_new})) or "— (not detected by its own property's check)",
                  "; ".join(f"{p}: {', '.join(sorted({a for a, _ in v}))}" for p, v in sorted(others.items()))))
@@ -55,5 +57,42 @@ with open(os.path.join(V, "seeded", "RESULTS.md"), "w") as f:
     for row in rows:
         f.write("| " + " | ".join(x or "" for x in row) + " |\n")
     n = len(rows); d_ = sum(1 for r_ in rows if not r_[2].startswith("—") and "does not apply" not in r_[2])
-    f.write(f"\n{d_} of {n} detected by the check of the property they break.\n")
+    hard = sum(1 for r_ in rows if not r_[2].startswith("—") and "does not apply" not in r_[2]
+               and any(not x.strip().startswith("UNDECIDED:") for x in r_[2].split(",")))
+    f.write(f"\n{d_} of {n} make the check of the property they break fail; {hard} of those with a VIOLATION line naming the construct (exit 1), "
+            f"{d_ - hard} only as UNDECIDED (exit 2, `ANALYSIS-ERROR ... cannot decide`).\n")
+# ---- behaviour-preserving refactorings (false-alarm control): every check must stay silent
+brows = []
+bdir = os.path.join(V, "benign")
+for bid in sorted(os.listdir(bdir)) if os.path.isdir(bdir) else []:
+    pf = os.path.join(bdir, bid, "patch.diff")
+    if not os.path.isfile(pf):
+        continue
+    tmp = tempfile.mkdtemp(prefix="sa-benign-")
+    try:
+        shutil.copytree(os.path.join(repo_root(), "genlm"), os.path.join(tmp, "genlm"), ignore=shutil.ignore_patterns("__pycache__"))
+        r = subprocess.run(["patch", "-p1", "-s", "-d", tmp, "-i", pf], capture_output=True, text=True)
+        if r.returncode != 0:
+            brows.append((bid, "patch does not apply to the current tree", ""))
+            continue
+        got = viol(tmp)
+    finally:
+        shutil.rmtree(tmp, ignore_errors=True)
+    new = {p: sorted({a for a, _ in got[p] - base[p]}) for p in got if got[p] - base[p]}
+    hard = sorted({a for v_ in new.values() for a in v_ if not a.startswith("UNDECIDED:")})
+    soft = sorted({a for v_ in new.values() for a in v_ if a.startswith("UNDECIDED:")})
+    note = ""
+    nf = os.path.join(bdir, bid, "note.txt")
+    if os.path.isfile(nf):
+        note = " ".join(open(nf).read().split())[:110]
+    brows.append((bid, "FALSE VIOLATION: " + ", ".join(hard) if hard else ("undecided (exit 2): " + ", ".join(soft) if soft else "silent"), note))
+with open(os.path.join(V, "seeded", "RESULTS.md"), "a") as f:
+    f.write("\n## Benign refactorings\n\nBehaviour-preserving edits produced by independent sub-agents (suite green with each; patches in `benign/`). "
+            "Every check is run on a scratch copy with the patch; anything but *silent* is a cost of the rules.\n\n")
+    f.write("| refactoring | outcome over all 20 checks | what it does |\n|---|---|---|\n")
+    for row in brows:
+        f.write("| " + " | ".join(x.replace("|", "/") for x in row) + " |\n")
+    f.write(f"\n{sum(1 for b in brows if b[1] == 'silent')} of {len(brows)} silent; "
+            f"{sum(1 for b in brows if b[1].startswith('undecided'))} undecided (exit 2, no VIOLATION line); "
+            f"{sum(1 for b in brows if b[1].startswith('FALSE'))} false violations.\n")
 print(open(os.path.join(V, "seeded", "RESULTS.md")).read())
